@@ -316,6 +316,39 @@ fn in_scope_custom_rsp(c: u8) -> bool {
     !MODELLED_REQ.contains(&c) && c != 0x07
 }
 
+/// the serial-line-only kinds whose `pdu_len` / `encode` are `todo!()` / `unimplemented!()` in the crate
+/// (open finding D19); `Response::ReadExceptionStatus` is implemented and is not one of them
+fn unimplemented_req(s: &ReqSpec) -> bool {
+    matches!(s, ReqSpec::Res | ReqSpec::Dia(..) | ReqSpec::Gcc | ReqSpec::Gcl | ReqSpec::Rsi)
+}
+fn unimplemented_rsp(s: &PduSpec) -> bool {
+    matches!(s, PduSpec::Rsp(RspSpec::Regs("DIA", ..)) | PduSpec::Rsp(RspSpec::Gcc(..)) | PduSpec::Rsp(RspSpec::Gcl(..)) | PduSpec::Rsp(RspSpec::Rsi(..)))
+}
+
+/// "never panics" on a value of an unimplemented kind: PASS once it neither panics in `pdu_len` nor in `encode`
+fn d19_req(spec: &ReqSpec) -> String {
+    with_req(spec, |v| {
+        let Some(v) = v else { return "NA constructor refused".into() };
+        let Some(pl) = catch(|| v.pdu_len()) else { return fail("D19", format!("pdu_len() of {:?} panicked (unimplemented kind)", FunctionCode::from(v))) };
+        let mut b = vec![0u8; pl + 4];
+        match catch(|| v.encode(&mut b)) {
+            None => fail("D19", format!("encode of {:?} panicked (unimplemented kind)", FunctionCode::from(v))),
+            Some(_) => "PASS".into(),
+        }
+    })
+}
+fn d19_rsp(spec: &PduSpec) -> String {
+    with_pdu(spec, |p| {
+        let Some(ResponsePdu(Ok(v))) = p else { return "NA constructor refused".into() };
+        let Some(pl) = catch(|| v.pdu_len()) else { return fail("D19", format!("pdu_len() of {:?} panicked (unimplemented kind)", FunctionCode::from(v))) };
+        let mut b = vec![0u8; pl + 4];
+        match catch(|| v.encode(&mut b)) {
+            None => fail("D19", format!("encode of {:?} panicked (unimplemented kind)", FunctionCode::from(v))),
+            Some(_) => "PASS".into(),
+        }
+    })
+}
+
 /* ---------- C01 / C02 / C03 / C19 ---------- */
 
 /// encode `v` into a roomy buffer; Ok((n, bytes[..n])) / Err(reason)
@@ -505,6 +538,9 @@ fn c03_rsp(spec: &PduSpec) -> String {
 }
 
 fn c19_req(spec: &ReqSpec) -> String {
+    if unimplemented_req(spec) {
+        return d19_req(spec);
+    }
     let Some(m) = req_meaning(spec) else { return "NA kind outside the property".into() };
     with_req(spec, |v| {
         let Some(v) = v else { return "NA constructor refused".into() };
@@ -533,6 +569,9 @@ fn c19_req(spec: &ReqSpec) -> String {
 }
 
 fn c19_rsp(spec: &PduSpec) -> String {
+    if unimplemented_rsp(spec) {
+        return d19_rsp(spec);
+    }
     let Some(m) = rsp_meaning(spec) else { return "NA kind outside the property".into() };
     with_pdu(spec, |p| {
         let Some(ResponsePdu(Ok(v))) = p else { return "NA constructor refused".into() };
@@ -566,6 +605,18 @@ fn frameable(dir: Dir, pdu: &[u8]) -> bool {
 }
 
 fn adu_req(tr: &str, tid: u16, id: u8, spec: &ReqSpec) -> String {
+    if tr == "rtu" && matches!(spec, ReqSpec::Res | ReqSpec::Gcc | ReqSpec::Gcl | ReqSpec::Rsi) {
+        // serial-line framing supports these one-byte requests (rtu::request_pdu_len frames 07, 0B, 0C, 11),
+        // but the value cannot be encoded at all
+        return with_req(spec, |v| {
+            let Some(v) = v else { return "NA constructor refused".into() };
+            let mut buf = vec![0u8; 16];
+            match catch(|| rtu::client::encode_request(rtu::RequestAdu { hdr: rtu::Header { slave: id }, pdu: RequestPdu(v) }, &mut buf)) {
+                None => fail("D19", format!("rtu::client::encode_request of {:?} panicked (unimplemented kind)", FunctionCode::from(v))),
+                Some(_) => "PASS".into(),
+            }
+        });
+    }
     let Some(m) = req_meaning(spec) else { return "NA kind outside the property".into() };
     let transplant = matches!(spec, ReqSpec::WmcS(..) | ReqSpec::WmrS(..) | ReqSpec::RwmS(..) | ReqSpec::WmrX(..) | ReqSpec::RwmX(..));
     if !(req_fits(&m) || (transplant && req_count_fits(&m))) {
@@ -638,6 +689,10 @@ fn adu_rsp(tr: &str, tid: u16, id: u8, spec: &PduSpec) -> String {
         }
     }
     if let RspM::Custom(c, _) = &m {
+        if !in_scope_custom_rsp(*c) {
+            // the response decoder has a dedicated variant for this code: a custom value with it is outside the property
+            return "NA custom code is a modelled kind".into();
+        }
         if *c >= 0x80 {
             // on the wire this IS an exception PDU (function | 0x80, code): not a frameable successful response
             return "NA custom response code >= 0x80 is an exception PDU on the wire".into();
@@ -1095,7 +1150,7 @@ fn c14(tr: &str, dir: Dir, noise: &[u8], f: &[u8], rest: &[u8]) -> String {
         }
         // clause 3: none of the first 256 offsets can start a frame -> error, not 'incomplete'
         if buf.len() >= 257 && ats.iter().all(|a| *a == At::Rejected) {
-            if s != "ERR" {
+            if !s.starts_with("ERR") {
                 return Err(format!("no offset among the first 256 can start a frame ({} bytes) but the scanner says {s}", buf.len()));
             }
         }
@@ -1673,6 +1728,9 @@ fn c18() -> String {
 fn c18_first_byte(kind: &str, t: &[&str]) -> String {
     if kind == "req" {
         let Some((spec, _)) = parse_req(t) else { return "NA unparsable".into() };
+        if unimplemented_req(&spec) {
+            return d19_req(&spec);
+        }
         with_req(&spec, |v| {
             let Some(v) = v else { return "NA constructor refused".into() };
             let Some(pl) = catch(|| v.pdu_len()) else { return "NA not encodable".into() };
@@ -1691,6 +1749,9 @@ fn c18_first_byte(kind: &str, t: &[&str]) -> String {
         })
     } else {
         let Some((spec, _)) = parse_rsp(t) else { return "NA unparsable".into() };
+        if unimplemented_rsp(&PduSpec::Rsp(spec.clone())) {
+            return d19_rsp(&PduSpec::Rsp(spec.clone()));
+        }
         with_rsp(&spec, |v| {
             let Some(v) = v else { return "NA constructor refused".into() };
             let Some(pl) = catch(|| v.pdu_len()) else { return "NA not encodable".into() };
